@@ -40,7 +40,8 @@ EXPLANATION = (
     "2715648 frame numbers: only a frame number on which they differ is a violation (reported with it). The same holds for the "
     "other two functions: a recomposition that is not in the recognised normal form (or has a C dividend the intervals do not prove "
     "non-negative, dividends of value-only helpers included) is folded in C integer semantics by the checker's own evaluator for every "
-    "(T2, T3) pair of 0..25 x 0..50 (complete once T1 is shown to enter only as 1326*T1); an incremental update that is not in the "
+    "(T2, T3) pair of 0..25 x 0..50 (complete once T1 is shown to enter only as 1326*T1; a summand looked up in a table nobody writes is folded with the "
+    "table read from its initialiser list, an offending element is named); an incremental update that is not in the "
     "recognised carry-chain shape is decided on its terms under the entry invariant -- fields replaced by the decomposition of fn, the "
     "effect of gsm_fn2gsmtime by the decomposition of its argument -- against the decomposition of (fn + delta) mod 2715648: each of the "
     "2715648 frame numbers for delta == 1, frame numbers around every carry point for the other deltas of the property; the moduli / "
@@ -1114,19 +1115,20 @@ class PySym:
             env[t.id] = v
         elif isinstance(t, ast.Attribute):
             env[ast.unparse(t)] = v
-        elif isinstance(t, (ast.Tuple, ast.List)) and all(isinstance(x, ast.Name) for x in t.elts):
+        # `(a, self.b) = v`: t = v; a = t[0]; self.b = t[1] (v was evaluated before any element is stored)
+        elif isinstance(t, (ast.Tuple, ast.List)) and all(isinstance(x, (ast.Name, ast.Attribute)) for x in t.elts):
             if v[0] == "tuple":
                 if len(v) - 1 != len(t.elts):
                     raise AnalysisError("forward substitution: tuple of %d values unpacked into %d names" % (
                         len(v) - 1, len(t.elts)))
                 for x, y in zip(t.elts, v[1:]):
-                    env[x.id] = y
+                    self._assign(x, y, env)
             elif v[0] == "ite" and v[2][0] == "tuple" and v[3][0] == "tuple" and len(v[2]) == len(v[3]) == len(t.elts) + 1:
                 for i, x in enumerate(t.elts):
-                    env[x.id] = ite_(v[1], v[2][i + 1], v[3][i + 1])
+                    self._assign(x, ite_(v[1], v[2][i + 1], v[3][i + 1]), env)
             else:
                 for i, x in enumerate(t.elts):
-                    env[x.id] = ("idx", v, C(i))
+                    self._assign(x, ("idx", v, C(i)), env)
         else:
             raise AnalysisError("forward substitution: assignment target outside the vocabulary: %s" % canon(t)[:60])
 
@@ -1406,8 +1408,37 @@ class CSym:
                 continue
             if cur is not None and kind(cur) == "CallExpr" and kids(cur)[0] is not child:
                 continue
+            if cur is not None and self._null_test(cur, child):
+                continue            # `if (q)`, `!q`, `q && ..`, `q != NULL`: the pointer's value, the caller's
+            if cur is not None and kind(cur) == "UnaryOperator" and cur.get("opcode") == "*":
+                # `*q` read or stored as a scalar: the caller's `*p`
+                c2, up = cur, self.tu.parent.get(id(cur))
+                while up is not None and kind(up) == "ParenExpr":
+                    c2, up = up, self.tu.parent.get(id(up))
+                ku = kind(up)
+                if ku == "ImplicitCastExpr" and up.get("castKind") == "LValueToRValue":
+                    continue
+                if ku in ("BinaryOperator", "CompoundAssignOperator") and up.get("opcode", "").endswith("=") and \
+                        up.get("opcode") not in ("==", "!=", "<=", ">=") and kids(up)[0] is c2:
+                    continue
             return False
         return True
+
+    def _null_test(self, cur, child):
+        """cur uses the pointer value `child` only for its truth value / equality with a null pointer constant"""
+        k = kind(cur)
+        if k in ("IfStmt", "ConditionalOperator"):
+            return kids(cur)[0] is child
+        if k == "UnaryOperator":
+            return cur.get("opcode") == "!"
+        if k == "ImplicitCastExpr":
+            return cur.get("castKind") == "PointerToBoolean"
+        if k == "BinaryOperator" and cur.get("opcode") in ("&&", "||"):
+            return True
+        if k == "BinaryOperator" and cur.get("opcode") in ("==", "!="):
+            other = [x for x in kids(cur) if x is not child]
+            return len(other) == 1 and self.tu.fold(strip(other[0])) == 0
+        return False
 
     def _inline_through(self, m, name, f, argnodes, args, lw):
         """call of a same-TU function with pointer arguments: substitute its body, the callee's `q->f` being the
@@ -1448,6 +1479,8 @@ class CSym:
             for k, v in lw.env.items():
                 if k.startswith(p + "->"):
                     init[q + k[len(p):]] = v
+                elif k == "*" + p:
+                    init["*" + q] = v
         callee_own = {p.get("name") for p in ps} | {n.get("name") for n in walk(self.tu.body(f)) if kind(n) == "VarDecl"}
         for k, v in self._file_level(lw.env, callee_own).items():
             init.setdefault(k, v)
@@ -1462,6 +1495,8 @@ class CSym:
                 for q, p in bind.items():
                     if t[1].startswith(q + "->"):
                         return V(p + t[1][len(q):])
+                    if t[1] == "*" + q:
+                        return V("*" + p)
             return None
         ne, npth, nst = len(self.effects), len(self.path), len(self.stores)
         self.depth += 1
@@ -1474,6 +1509,8 @@ class CSym:
             root = re.split(r"->|\.|\[", key, 1)[0]
             if root in bind:
                 key = bind[root] + key[len(root):]
+            elif key[:1] == "*" and key[1:] in bind:
+                key = "*" + bind[key[1:]]
             self.stores[i] = (pth[:npth] + tuple((renorm(c, ren), pol) for c, pol in pth[npth:]), key, renorm(val, ren))
         for i in range(ne, len(self.effects)):
             pth, cal, eargs = self.effects[i]
@@ -1489,7 +1526,9 @@ class CSym:
             root = re.split(r"->|\.|\[", k, 1)[0]
             if root in bind and k != root:
                 lw.env[bind[root] + k[len(root):]] = renorm(self.final(out, k), ren)
-            elif root not in own:
+            elif k[:1] == "*" and k[1:] in bind:
+                lw.env["*" + bind[k[1:]]] = renorm(self.final(out, k), ren)
+            elif root.lstrip("*") not in own:
                 lw.env[k] = renorm(self.final(out, k), ren)
         return renorm(self.result(out), ren)
 
@@ -1572,6 +1611,10 @@ class CSym:
                         # that judges the first call substitutes the initial value itself, see kept_objects / cold_start).
                         # One that nobody writes holds its initialiser for ever: bound below like any initialised local.
                         self.static_locals[d.get("name")] = d
+                        continue
+                    if d.get("storageClass") == "static" and kind(strip(_decl_init(d) or {})) == "InitListExpr":
+                        # an aggregate of static storage duration nobody writes (a lookup table): a constant object, it
+                        # stays the symbol `name` exactly like a file-scope table (subscripts of it are ('idx', name, i))
                         continue
                     if d.get("init") and kids(d):
                         env[d.get("name")] = self.lower(kids(d)[-1], env)
@@ -2026,6 +2069,7 @@ class CExec:
         self.statics = {}
         self.steps = 0
         self.depth = 0
+        self.reads = None        # a list: every array element an lvalue names is logged as (array text, index, the list)
 
     # -- objects
     def _type(self, n):
@@ -2039,8 +2083,10 @@ class CExec:
         ini = _decl_init(d)
         if "[" in qt:
             v = self.tu.init_value(ini) if ini is not None else None
-            if isinstance(v, list) and all(isinstance(x, int) and not isinstance(x, bool) for x in v):
-                return list(v)
+            ety = _exec_type(re.sub(r"\s*\[[^\]]*\]\s*$", "", qt))
+            if isinstance(v, list) and ety is not None and all(isinstance(x, int) and not isinstance(x, bool) for x in v):
+                # each initialiser is converted to the element type (a value the element cannot hold is truncated)
+                return [_convert(x, ety) for x in v]
             raise _NoFold("array `%s`" % d.get("name"))
         if re.search(r"\b(struct|union)\b", qt) and "*" not in qt:
             if ini is not None or re.search(r"\bunion\b", qt):
@@ -2111,6 +2157,8 @@ class CExec:
             i = self.expr(kids(n)[1], fr)
             if not isinstance(arr, list) or not isinstance(i, int) or not 0 <= i < len(arr):
                 raise _NoFold("`%s`" % ctext(n)[:40])
+            if self.reads is not None:
+                self.reads.append((ctext(b), i, arr))
             return arr, i, _exec_type(n.get("type", {}))
         raise _NoFold("`%s` as an object" % ctext(n)[:40])
 
@@ -2761,6 +2809,59 @@ def fold_recomposition(tu, f, p, sym, t1s=RECOMP_T1, limit=3):
     return k, bad
 
 
+def fold_recomposition_exec(tu, f, t1s=RECOMP_T1, limit=3):
+    """The same fold by CExec (typed C integer semantics), for a recomposition that reads objects of static storage
+    duration -- a lookup table instead of a product.  Sound only because nothing writes them (kept_objects() is empty:
+    an object nobody writes holds its initialiser for ever, so a subscript of it is a function of the index; the
+    initialiser list is read from the clang AST) and exact because the index is evaluated on the complete (T2, T3)
+    domain.  A point that returns another frame number is reported with the table elements it read; an element whose
+    replacement by (element + FN - returned) makes that very point return FN is named as the offending entry.
+    (points folded, [text of differing points]); AnalysisError outside CExec's vocabulary or when state is kept."""
+    kept = kept_objects(tu, f)
+    if kept:
+        raise AnalysisError("gsm_gsmtime2fn reads %s, written elsewhere in the file (state)" % ", ".join("`%s`" % x for x in sorted(kept)))
+    ex = CExec(tu)
+
+    def call(t1, t2, t3, fn):
+        ex.steps, ex.reads = 0, []
+        try:
+            v = ex.call(f, [{"fn": fn, "t1": t1, "t2": t2, "t3": t3, "tc": (fn // 51) % 8}])
+        except (_NoFold, _Flow, ArithmeticError, ValueError, TypeError, KeyError, RecursionError) as e:
+            raise AnalysisError("gsm_gsmtime2fn cannot be folded for T1 = %d, T2 = %d, T3 = %d: %s" % (t1, t2, t3, e))
+        if isinstance(v, bool) or not isinstance(v, int):
+            raise AnalysisError("gsm_gsmtime2fn returns no integer for T1 = %d, T2 = %d, T3 = %d" % (t1, t2, t3))
+        return v, ex.reads
+    k, bad, tabs = 0, [], {}
+    for t1 in t1s:
+        for t2 in range(26):
+            for t3 in range(51):
+                fn = 51 * ((t3 - t2) % 26) + t3 + 1326 * t1
+                got, reads = call(t1, t2, t3, fn)
+                k += 1
+                for name, i, arr in reads:
+                    tabs.setdefault(name, (len(arr), set(), {}))[1].add(i)
+                if got == fn:
+                    continue
+                txt = []
+                for name, i, arr in reads:
+                    old, fix = arr[i], None
+                    arr[i] = old + fn - got
+                    try:
+                        if call(t1, t2, t3, fn)[0] == fn:
+                            fix = arr[i]
+                    except AnalysisError:
+                        pass
+                    arr[i] = old
+                    if fix is not None or i not in tabs[name][2]:
+                        tabs[name][2][i] = (old, fix)
+                    txt.append("%s[%d] == %d%s" % (name, i, old, "" if fix is None else " -- offending entry: %d there returns "
+                                                   "the frame number" % fix))
+                if len(bad) < limit:
+                    bad.append("T1 = %d, T2 = %d, T3 = %d (FN = %d): %d returned%s" % (
+                        t1, t2, t3, fn, got, "; reads " + ", ".join(txt) if txt else ""))
+    return k, bad, tabs
+
+
 def fold_recomposition_term(got, want, t1s=RECOMP_T1, limit=3):
     """the same comparison on the forward-substituted term (floor semantics: valid once every dividend is proven
     non-negative), for every (T2, T3) pair and T1 in t1s"""
@@ -2801,7 +2902,12 @@ def r2_recomposition(L, tu):
     mathematical mod).  A recomposition written in another shape (conditional add / subtract instead of a remainder, a
     helper, a defensive fallback arm) decides nothing by its shape: the function is then folded in C semantics for
     every (T2, T3) pair of the finite domain -- a time on which another frame number is returned is the violation
-    (reported with it); agreement is recorded and the structural clause stays open without an alarm."""
+    (reported with it); agreement is recorded and the structural clause stays open without an alarm.
+    Lookup tables (clause: recomposition inverts decomposition for every frame number): a summand taken from an object of
+    static storage duration nobody writes is a function of the index, so the fold reads the table from its initialiser
+    list and runs the index over the complete (T2, T3) domain (fold_recomposition_exec); one obligation per table names
+    every element with which another frame number than that of the time is returned.  A table somebody writes is state:
+    no verdict."""
     rule = "C19.R2"
     fname = "gsm_gsmtime2fn"
     f = tu.func(fname)
@@ -2845,18 +2951,37 @@ def r2_recomposition(L, tu):
         # not in the recognised shape: decided by folding the function itself over the finite domain
         closed = linear_in_t1(got)
         t1s = (0, 2047) if closed else RECOMP_T1
+        e, tabs = None, {}
         try:
             k, bad = fold_recomposition(tu, f, p, sym, t1s)
             how = "folded in C integer semantics"
-        except AnalysisError as e:
+        except AnalysisError as e0:
+            e = e0
+            try:
+                # e.g. a lookup in a file-scope table nobody writes: folded exactly from its initialiser list
+                k, bad, tabs = fold_recomposition_exec(tu, f, t1s)
+                how = "folded in typed C integer semantics, constant tables read from their initialisers"
+                e = None
+            except AnalysisError:
+                pass
+        if e is not None:
             if not div_ok:
                 # neither proven by intervals nor foldable: the interval verdict stands (a dividend that is negative
                 # for some time of the box; an expression that cannot be bounded gives no verdict)
                 L.ob(rule, F_UTILS, fname, key, show(want), differs, not d, line)
                 dividends()
-                raise
+                raise e
             k, bad = fold_recomposition_term(got, want, t1s)
             how = "the forward-substituted term folded (%s)" % e
+        for name, (size, reached, off) in sorted(tabs.items()):
+            # a subscript of an object nobody writes is a function of the index: decided element by element
+            L.ob(rule, F_UTILS, fname, "constant table `%s` subscripted by gsm_gsmtime2fn: with every element the times of the "
+                 "(T2, T3) domain reach, the frame number of the time is returned" % name, "no offending element",
+                 "; ".join("%s[%d] == %d%s" % (name, i, old, "" if fix is None else " (%d there returns the frame number)" % fix)
+                           for i, (old, fix) in sorted(off.items())[:6]) if off else
+                 "%d of %d elements reached, initialiser list read from the AST, none offending" % (len(reached), size), not off, line)
+        if tabs:
+            L.floor(rule, "elements of constant tables reached by the fold of gsm_gsmtime2fn", sum(len(r) for _, r, _ in tabs.values()), 1)
         scope = "every (T2, T3) pair of 0..25 x 0..50 and T1 in %s%s" % (
             list(t1s), " (T1 enters only as the summand 1326*T1: complete)" if closed else "")
         if bad:
